@@ -5,7 +5,7 @@ only the property text + the summaries of changes already taken). Flavours rotat
 import json, sys, os, glob
 rnd = int(sys.argv[1]); out = sys.argv[2]
 FLAV = [
- "it must need a fault or error at a particular point (an I/O error, a missing or truncated member, an error return that is swallowed or mis-propagated) — the failure path is what breaks.",
+ "it must need a fault at a particular point of the input (a missing, truncated or undecodable member, object or stream; a dangling reference; a part that fails to parse) whose error return is then swallowed or mis-propagated inside the library — the failure path is what breaks. (Errors of the environment such as a failing disk read or a full output device are out of scope.)",
  "it must need two cooperating code sites that each look fine alone (a producer and a consumer that disagree on a unit, an index base, an ordering or an ownership rule).",
  "it must need an unusual-but-valid input feature the existing tests never use (look at the governing specification for optional features, alternative spellings, defaults).",
  "it must need a particular interleaving, call history or reuse of one object across several calls/documents (state that leaks between calls).",
